@@ -10,7 +10,10 @@ import random
 import compat  # noqa: F401
 from framework import Prop, canon_json
 
+import os
+
 SRC_BASE, DST_BASE = 1 << 20, 1 << 24
+BYVALUE = os.environ.get("C05_BYVALUE", "") == "1"
 ELT = {8: "i8", 16: "i16", 32: "i32", 64: "i64"}
 
 
@@ -345,7 +348,7 @@ def gen_case(rng, tier, odd=False):
 
 def gen_special(rng):
     """hand-shaped families: upstream filecheck inputs, equal steps with unit bounds, single-element LCB."""
-    fam = rng.randrange(8)
+    fam = rng.randrange(10)
     bits = rng.choice([8, 32, 64])
     el = bits // 8
 
@@ -393,6 +396,35 @@ def gen_special(rng):
         return {"kind": "copy", "src": ty([n, m], {"strided": [2 * m, 2], "offset": 1}),
                 "dst": ty([n, m], {"strided": [3, 3 * n], "offset": 0}),
                 "rs": rt(SRC_BASE, [n, m], [2 * m, 2], 1), "rd": rt(DST_BASE, [n, m], [3, 3 * n], 0)}
+    if fam == 8:  # D41 family: the same source Stride value at two positions (self-overlapping / broadcast-like
+        # source, equal steps in different dimensions), destination injective
+        n, m = rng.choice([2, 3]), rng.choice([2, 2, 4])
+        if rng.random() < 0.5:
+            n = m
+        s = rng.choice([1, 1, 2])
+        d1 = rng.choice([1, 1, 3])
+        dst_st = [d1, d1 * n * rng.choice([1, 2])] if rng.random() < 0.6 else [m * d1, d1]
+        shape = [n, m] if rng.random() < 0.7 else [None, None]
+        sst = [s, s] if shape[0] is not None or rng.random() < 0.5 else [s, None]
+        return {"kind": "copy", "src": ty(shape, {"strided": sst, "offset": 0}),
+                "dst": ty(shape, {"strided": dst_st, "offset": 0}),
+                "rs": rt(SRC_BASE, [n, m], [s, s]), "rd": rt(DST_BASE, [n, m], dst_st)}
+    if fam == 9:  # identical (source, destination) stride pairs at several positions, some of them block members:
+        # exercises the order of the remaining strides after removal by position (TSL with repeated strides)
+        n = rng.choice([2, 3])
+        k = rng.choice([3, 4])
+        a = rng.choice([1, 2])
+        ts_s = [[[a, n]] for _ in range(k)]
+        ts_d = [[[a, n]] for _ in range(k)]
+        j = rng.randrange(k)
+        ts_d[j] = [[a * rng.choice([1, n, 5]), n]]
+        if rng.random() < 0.5:
+            i = rng.randrange(k)
+            ts_s[i] = [[a * n, n]]
+            ts_d[i] = [[a * n, n]]
+        return {"kind": "copy", "src": ty([n] * k, {"tsl": {"ts": ts_s, "offset": 0}}),
+                "dst": ty([n] * k, {"tsl": {"ts": ts_d, "offset": 0}}),
+                "rs": rt(SRC_BASE, [n] * k), "rd": rt(DST_BASE, [n] * k)}
     # fam 7: tiled dynamic block layout  [?, t] -> (?, t), [?, t] -> (?, 1)  against the default layout
     t = rng.choice([2, 4])
     a, b = t * rng.choice([1, 2, 3]), t * rng.choice([1, 2])
@@ -531,8 +563,9 @@ class C05(Prop):
 
         def mt(t):
             return {"shape": t["shape"], "el": t["el"], "int": t["int"], "layout": t["layout"]}
+        # C05_BYVALUE=1: model of the code BEFORE fix F21 (LCB membership by Stride value), for an unpatched tree
         return [{"fn": "c05.lower", "args": {"src": mt(case["src"]), "dst": mt(case["dst"]), "rs": case["rs"],
-                                             "rd": case["rd"], "idxs": idxs}}]
+                                             "rd": case["rd"], "idxs": idxs, "byValue": BYVALUE}}]
 
     def _sample_idxs(self, case):
         shape = case["rs"]["shape"]
@@ -565,15 +598,7 @@ class C05(Prop):
             return None
         m = dict(model_out)
         addrs = m.pop("_addrs", None)
-        entries = m.pop("_entries", None)
-        if entries is not None:
-            # clause ResolutionConsistent of C05_moves_partial (hypothesis about the model's resolve): checked here
-            el = case["src"]["el"]
-            for dim in entries:
-                for (ss, ds, b, sst, dst) in dim:
-                    if ((ss[0] is not None and sst != ss[0] * el) or (ds[0] is not None and dst != ds[0] * el)
-                            or (ss[1] is not None and b != ss[1])):
-                        return f"model entry {[ss, ds, b, sst, dst]} violates ResolutionConsistent" 
+        m.pop("_entries", None)  # ResolutionConsistent is a theorem now (C05.resolution_consistent)
         i = dict(impl_out)
         if "raised" in i:
             i = {"raised": i["raised"]}
@@ -646,8 +671,8 @@ class C05(Prop):
             fid = "D32"
         elif any(s[0] is None for s in impl_out.get("lcb") or []):
             fid = "D40"
-        elif "tS" in impl_out and not by_value_distinct(impl_out["tS"], shape):
-            fid = "D41"
+        elif BYVALUE and "tS" in impl_out and not by_value_distinct(impl_out["tS"], shape):
+            fid = "D41"  # only when checking an unpatched tree with C05_BYVALUE=1 (finding is fixed by F21)
         return [{"what": "; ".join(problems), "finding": fid}]
 
     def nontrivial(self, case, impl_out):
